@@ -76,6 +76,7 @@ vars == <<e, stage>>
 LongIn == AIn(AKey, [i \in 1..40 |-> AStr(KeySeq[2 * i])])
 Init == \/ stage = 0 /\ e \in { ABin(op, l, l) : op \in Ops, l \in Sub }
         \/ stage = 1 /\ e \in {ABool(FALSE), ABool(TRUE), LongIn, ABin("&", LongIn, Opq), ABin("&", LongIn, ABin("^=", AKey, AStr(<<97>>)))}
+                                   \cup {x \in Atoms : Evaluable(x)}        \* every atom as a whole clause too (a constant comparison alone, one key test alone)
 Next == stage = 0 /\ stage' = 1 /\ \E r \in Sub : e' = ABin(e.op, e.a[1], r)
 
 SatIdx(ex, opq) == { i \in 1..NKeys : Sat(ex, Pair(KeySeq[i], IF opq THEN V1 ELSE V0), <<>>) = "t" }
